@@ -690,6 +690,17 @@ RULES = {
                 "for ( j , result ) in [ & r0 , & comp1 , & comp2 , & comp3 , & r4 ] . iter ( ) . enumerate ( ) . rev ( ) { $$body }",
                 "{ let arr__ = [ & r0 , & comp1 , & comp2 , & comp3 , & r4 ] ; let mut j__ = 5 ; while j__ > 0 { j__ -= 1 ; let j = j__ ; let result = & arr__ [ j__ ] ; $$body } }"),
     "R39": Rule("R39", "fn f(..) { PROLOGUE let (x, y) = E; REST } -> fn f(..) { PROLOGUE let (x, y) = E; loop { REST break; } }  (single-iteration loop: same behaviour; gives the verifier a cut point after the prologue; implemented by apply_cut_loop)", "<special>", "<special>"),
+    "R40a": Rule("R40a", "match (&*self.data, &*other.data) { (&[], _) | (_, &[]) => A, (_, &[digit]) => B, (&[digit], _) => C, (x, y) => D, } -> length tests in the same order: if either is empty { A } else if other has one digit { let digit = ys[0]; B } else if self has one digit { let digit = xs[0]; C } else { let x = xs; let y = ys; D }  (slice patterns: `&[]` matches exactly the empty slice, `&[digit]` exactly the one-element slice and copies the element; arms are tried in order)",
+                 "match ( & * self . data , & * other . data ) { ( & [ ] , _ ) | ( _ , & [ ] ) => $$a , ( _ , & [ digit ] ) => $$b , ( & [ digit ] , _ ) => $$c , ( x , y ) => $$d , }",
+                 "{ let xs__ : & [ BigDigit ] = & * self . data ; let ys__ : & [ BigDigit ] = & * other . data ; if xs__ . len ( ) == 0 || ys__ . len ( ) == 0 { $$a } else if ys__ . len ( ) == 1 { let digit = ys__ [ 0 ] ; $$b } else if xs__ . len ( ) == 1 { let digit = xs__ [ 0 ] ; $$c } else { let x = xs__ ; let y = ys__ ; $$d } }"),
+    "R40b": Rule("R40b", "the same for impl_mul_assign!: (&[], _) => {}, (_, &[]) => A, (_, &[digit]) => B, (&[digit], _) => C, (x, y) => D  -> if self empty { } else if other empty { A; } else if other has one digit { let digit = ys[0]; B; } else if self has one digit { let digit = xs[0]; C; } else { let x = xs; let y = ys; D; }",
+                 "match ( & * self . data , & * other . data ) { ( & [ ] , _ ) => { } , ( _ , & [ ] ) => $$a , ( _ , & [ digit ] ) => $$b , ( & [ digit ] , _ ) => $$c , ( x , y ) => $$d , }",
+                 "{ let xs__ : & [ BigDigit ] = & * self . data ; let ys__ : & [ BigDigit ] = & * other . data ; if xs__ . len ( ) == 0 { } else if ys__ . len ( ) == 0 { $$a ; } else if ys__ . len ( ) == 1 { let digit = ys__ [ 0 ] ; $$b ; } else if xs__ . len ( ) == 1 { let digit = xs__ [ 0 ] ; $$c ; } else { let x = xs__ ; let y = ys__ ; $$d ; } }"),
+    "R40c": MultiRule("R40c", "operator forms of the impl_mul! arms in trait-method form", [
+        ("self * digit", "Mul :: mul ( self , digit )"),
+        ("other * digit", "Mul :: mul ( other , digit )"),
+        ("* self *= digit", "MulAssign :: mul_assign ( self , digit )"),
+    ]),
     "R16v": Rule("R16v", "Ord::cmp(&bit, &trailing_zeros) -> __u64_cmp(bit, trailing_zeros)  (std: total order on u64)",
                  "Ord :: cmp ( & bit , & trailing_zeros )", "__u64_cmp ( bit , trailing_zeros )"),
     "R0p": Rule("R0p", "crate::big_digit::BITS -> big_digit::BITS  (path of the same constant inside the unit's module)",
